@@ -2,6 +2,7 @@ mod analysis;
 mod driver;
 mod exec;
 mod families;
+mod findings;
 mod handles;
 mod hist;
 mod json;
@@ -79,7 +80,7 @@ impl RunSource for Explore {
             }
         }
         for x in &v.violations {
-            *self.classes.entry(format!("{}.{} @{}", x.prop, x.class, x.site)).or_default() += 1;
+            *self.classes.entry(format!("{}.{} @{} [{}]", x.prop, x.class, x.site, scn.family)).or_default() += 1;
         }
         if !v.violations.is_empty() && self.shown < self.max_show {
             self.shown += 1;
